@@ -269,8 +269,22 @@ CHECKS.append({
             "by a fix: commit.",
 })
 
+CHECKS.append({
+    "property_id": "C12",
+    "technique": "contract-based verification of frame conditions (effect inference over the real source of every public read accessor, callee effects composed modularly, receivers typed from a table observed on the corpus decks) + bounded run-time frame check",
+    "category": "proof",
+    "text": "Each public read accessor (properties, lazy properties, __iter__/__len__/__getitem__ of the proxy classes; ~750 class/accessor pairs) carries the frame clause "
+            "the property grants: effect <= adds-empty-container, or mutates only when its docstring (or the property's own list) documents creation. The clause is inferred from the "
+            "AST of the real function and of everything it calls (xmlchemy-generated members classified from the generator closure; hand-written creators evaluated to see whether they "
+            "build attributes or text; lxml members by a reader/writer table). A refuted clause is replayed natively: the accessor alone on fresh copies of the decks, with the child a "
+            "get_or_add would create removed first when the corpus has no witness.",
+    "note": "Accessors whose receivers cannot be typed are unresolved and covered only by the bounded C12.native_traversal job (every accessor on every reachable object of 15/61 decks, "
+            "isolated replays, traverse-save-traverse-save against a straight open-save; never counted as proved). 14 known findings F27/F28 (chart data-label / point accessors and "
+            "pattern-fill colours create non-empty content without saying so); DataLabels.show_* repaired by a fix: commit.",
+})
+
 NOT_APPLICABLE = [
     {"property_id": p, "reason": _PENDING}
-    for p in ["C03", "C07", "C12",
+    for p in ["C03", "C07",
               ]
 ]
